@@ -132,6 +132,34 @@ func perHeight(descs []string, hs []types.Height, low types.Height) string {
 
 type twinKey struct{ p, k int }
 
+// drawStop chooses how the process stops at a stop point whose effect has kind ek (-1: after the last effect).
+// idle (graceful_cancel only): the context is cancelled while the driver is idle in its select, before the input
+// that leads to the effect is delivered, instead of while it is parked at the effect.
+func drawStop(c *sim.Ctx, ek int) (kind int, idle bool) {
+	const (
+		k = stopKill
+		l = stopListenerFailure
+		g = stopGracefulCancel
+		w = stopWALIOError
+		i = -1 // graceful_cancel while idle
+	)
+	menu := [8]int{k, k, k, k, g, g, g, i}
+	switch ek {
+	case efCommit:
+		menu = [8]int{k, k, l, l, l, g, g, i}
+	case efFlush:
+		menu = [8]int{k, k, k, g, g, i, w, w}
+	}
+	d := menu[c.T.Draw("stop_kind", 8)]
+	if c.Knobs["stop_kinds"] == "0" {
+		return stopKill, false // kills only (props knob); the draw is still consumed
+	}
+	if d == i {
+		return stopGracefulCancel, true
+	}
+	return d, false
+}
+
 // C13 is one run: a reference execution without crash, then one crashed execution (and its twin) per
 // kill point.
 func C13(c *sim.Ctx) {
@@ -171,7 +199,7 @@ func C13(c *sim.Ctx) {
 		c.Logf("in%d %s -> %s", i, in, strings.Join(ref.effectsLog[e0:], " ; "))
 	}
 	E := ref.nEffects
-	refEffects := ref.effectsLog
+	refEffects, refKinds, refInputs := ref.effectsLog, ref.effKinds, ref.effInputs
 	if ref.dur.last > 0 {
 		c.Probe("height_committed")
 	}
@@ -183,7 +211,7 @@ func C13(c *sim.Ctx) {
 			}
 		}
 	}
-	ref.stop()
+	ref.stopJudged()
 	live = live[:0]
 
 	// ---- kill points: before every effect and after the last one
@@ -211,11 +239,25 @@ func C13(c *sim.Ctx) {
 		cr := newExecution(c, cfg, "crashed")
 		cr.killAt = e
 		cr.killDuring = t.Draw("kill_inside_flush", 2) == 1
+		ek, stopBefore := -1, -1
+		if e <= E {
+			ek = refKinds[e-1]
+		}
+		var idle bool
+		cr.stopKind, idle = drawStop(c, ek)
+		if idle && e <= E && refInputs[e-1] >= 0 {
+			stopBefore = refInputs[e-1] // cancel while idle, before this input arrives
+		}
 		live = append(live, cr)
 		cr.start()
 		cr.drain()
 		for i, in := range inputs {
 			if cr.killed {
+				break
+			}
+			if i == stopBefore {
+				cr.curInput = i - 1
+				cr.kill(nil)
 				break
 			}
 			cr.feed(i, in)
@@ -226,7 +268,7 @@ func C13(c *sim.Ctx) {
 			cr.kill(nil)
 		}
 		// same history up to the kill?
-		for i := 0; i < e-1 && i < len(cr.effectsLog) && i < len(refEffects); i++ {
+		for i := 0; i < e-1 && i < cr.preEffectN && i < len(cr.effectsLog) && i < len(refEffects); i++ {
 			if cr.effectsLog[i] != refEffects[i] {
 				c.Broken("crashed execution diverges from the reference before the kill: %q vs %q", cr.effectsLog[i], refEffects[i])
 			}
@@ -275,8 +317,30 @@ func C13(c *sim.Ctx) {
 			for _, i := range idxs {
 				ds = append(ds, pre[i].desc)
 			}
-			c.Fail("wal_content", cr.where(), "the recovered log (heights >= %d) is not a prefix of what the validator had appended\nloaded:   %s\nappended: %v\nkilled before effect %d (%s)", cr.recHeight, loadedCanon, ds, e, cr.killEffect)
+			c.Fail("wal_content", cr.where(), "the recovered log (heights >= %d) is not a prefix of what the validator had appended\nloaded:   %s\nappended: %v\nstop (%s) at effect %d (%s)", cr.recHeight, loadedCanon, ds, stopName[cr.stopKind], e, cr.killEffect)
 		}
+		// ---- a stop in which Run returned by itself (its deferred Close of the store ran; Close flushes what is
+		// buffered): the log the validator restarts from holds everything it had appended for the heights whose
+		// commit did not complete. In particular the entries of a height whose commit callback failed or was cancelled are
+		// intact (no prune record for it has become durable): the validator resumes AT that height from them.
+		if cr.stopKind != stopKill && cr.mustHoldLog && n < len(idxs) {
+			a := pre[idxs[n]]
+			sub := "entries_of_uncommitted_height_gone"
+			if !cr.failedCommit[a.h] {
+				// An entry that was only buffered (its effects not yet visible to anybody) and is lost by a
+				// Close that does not flush is NOT a violation of the statement: it speaks about durably
+				// recorded inputs and about inputs whose effects were made visible. Only counted.
+				c.Probe("buffered_entry_lost_at_stop_not_judged")
+				goto notJudged
+			}
+			var ds []string
+			for _, i := range idxs {
+				ds = append(ds, pre[i].desc)
+			}
+			c.Fail("stop_lost_log", cr.where()+"/"+sub, "Driver.Run returned (%v) in a live process, but the log the validator restarts from (heights >= %d; last completed commit %d) lacks %q, which it had appended\nloaded:   %s\nappended: %v\nstop (%s) at effect %d (%s)\neffects: %s",
+				cr.runErr, cr.recHeight, cr.recHeight-1, a.desc, loadedCanon, ds, stopName[cr.stopKind], e, cr.killEffect, strings.Join(tail(cr.effectsLog, 24), " ; "))
+		}
+	notJudged:
 		P := k + 1
 		if n < len(idxs) {
 			a := pre[idxs[n]]
@@ -322,7 +386,7 @@ func C13(c *sim.Ctx) {
 				cr.feed(1000+i, in)
 			}
 		}
-		cr.stop()
+		cr.stopJudged()
 		live = live[:0]
 		// ---- oracle 4: equals the uncrashed twin that processed exactly the durable inputs
 		tk := twinKey{P, k}
@@ -341,7 +405,7 @@ func C13(c *sim.Ctx) {
 					tw.feed(1000+i, in)
 				}
 			}
-			tw.stop()
+			tw.stopJudged()
 			live = live[:0]
 			twins[tk] = tw
 			c.Evals++
@@ -389,10 +453,13 @@ func C13(c *sim.Ctx) {
 			case appVolatile:
 				cls = "volatile_validity"
 			}
-			c.Fail(cls, cr.where()+"/diverges_from_twin", "%s\nkilled before effect %d (%s) while processing input %d; durable inputs: first %d; recovery outputs: %v\ncrashed suffix outputs: %v\ntwin suffix outputs:    %v",
-				diff, e, cr.killEffect, k, P, cr.recOutputs, cr.sufOutputs, tw.sufOutputs)
+			c.Fail(cls, cr.where()+"/diverges_from_twin", "%s\nstop (%s) at effect %d (%s) while processing input %d; durable inputs: first %d; recovery outputs: %v\ncrashed suffix outputs: %v\ntwin suffix outputs:    %v",
+				diff, stopName[cr.stopKind], e, cr.killEffect, k, P, cr.recOutputs, cr.sufOutputs, tw.sufOutputs)
 		}
-		c.Logf("kill@%d (%s) in%d -> recovered h%d loaded=%d durable_inputs=%d replay_out=%d suffix_out=%d", e, cr.killEffect, k, cr.recHeight, len(cr.recLoaded), P, len(cr.recOutputs), len(cr.sufOutputs))
+		c.Logf("%s@%d (%s) in%d -> recovered h%d loaded=%d durable_inputs=%d replay_out=%d suffix_out=%d", stopName[cr.stopKind], e, cr.killEffect, k, cr.recHeight, len(cr.recLoaded), P, len(cr.recOutputs), len(cr.sufOutputs))
+		if cr.stopKind != stopKill && len(cr.failedCommit) > 0 && cr.dur.last >= cr.recHeight {
+			c.Probe("incomplete_commit_completed_after_restart")
+		}
 		if len(cr.recLoaded) > 0 {
 			nontrivial = true
 		}
